@@ -32,6 +32,14 @@ struct DeclLines : SyntaxVisitor {
         if (it == line.end() || ln < it->second) line[sym] = ln;
     }
     Action visitIdentifierDeclarator(const IdentifierDeclaratorSyntax* n) override { note(model->declarationBy(n), n); return Action::Visit; }
+    Action visitParameterDeclaration(const ParameterDeclarationSyntax* n) override
+    {
+        // an unnamed parameter is bound at its (abstract) declarator: its line is that of the parameter declaration
+        const DeclaratorSyntax* d = n->declarator();
+        while (d && d->kind() == SyntaxKind::ParenthesizedDeclarator) d = static_cast<const ParenthesizedDeclaratorSyntax*>(d)->innerDeclarator();
+        if (d) note(model->declarationBy(d), n);
+        return Action::Visit;
+    }
     Action visitStructOrUnionDeclaration(const StructOrUnionDeclarationSyntax* n) override { note(model->structOrUnionFor(n), n); return Action::Visit; }
     Action visitEnumDeclaration(const EnumDeclarationSyntax* n) override { note(model->enumFor(n), n); return Action::Visit; }
 };
